@@ -235,6 +235,96 @@ func runC20(w *World, r *Report) {
 			fmt.Sprintf("seal nonce len=%d, open nonce=data[:%d], ciphertext=data[%d:], nonce-is-prefix=%v", kEnc, kHigh, kLow, prefixOK))
 	}
 
+	// the key the cipher is built with is derived from the caller's key in the same way on both sides
+	r.rule("cipher-key-derived-alike", "the key handed to aes.NewCipher in Encrypt and in Decrypt has the same derivation from the key parameter: the same set of functions applied on the way (none today — the parameter itself), on every path; a side that stretches, hashes or pads the key where the other does not seals under a key the reader never builds", 1)
+	{
+		derivation := func(fn *ssa.Function) (string, bool) {
+			cs := deepCalls(fn, byName("crypto/aes.NewCipher"), 2)
+			if len(cs) == 0 {
+				return "", false
+			}
+			var parts []string
+			for _, d := range cs {
+				steps := map[string]bool{}
+				seen := map[ssa.Value]bool{}
+				var walk func(v ssa.Value)
+				walk = func(v ssa.Value) {
+					if v == nil || seen[v] {
+						return
+					}
+					seen[v] = true
+					switch x := v.(type) {
+					case *ssa.Parameter:
+						if x.Parent() != fn { // a helper's parameter: continue at the call sites on the chain
+							steps["param:"+d.path(x)] = true
+						} else {
+							steps["param:"+x.Name()] = true
+						}
+					case *ssa.Slice:
+						walk(x.X)
+					case *ssa.ChangeType:
+						walk(x.X)
+					case *ssa.Convert:
+						walk(x.X)
+					case *ssa.Phi:
+						for _, e := range x.Edges {
+							walk(e)
+						}
+					case *ssa.Alloc:
+						for _, ref := range *x.Referrers() {
+							if st, ok := ref.(*ssa.Store); ok && st.Addr == ssa.Value(x) {
+								walk(st.Val)
+							}
+						}
+					case *ssa.UnOp:
+						walk(x.X)
+					case *ssa.Extract:
+						walk(x.Tuple)
+					case *ssa.Call:
+						if b, isB := x.Call.Value.(*ssa.Builtin); isB {
+							// append(fresh, key...) is a copy of the key; append(key, …) is a longer key
+							if b.Name() == "append" && len(x.Call.Args) == 2 {
+								before := len(steps)
+								walk(x.Call.Args[0])
+								if len(steps) != before {
+									for k := range steps {
+										if strings.HasPrefix(k, "param:") {
+											steps["extended"] = true
+										}
+									}
+								}
+								walk(x.Call.Args[1])
+							}
+							return
+						}
+						steps["call:"+calleeName(x)] = true
+						for _, a := range x.Call.Args {
+							walk(a)
+						}
+					case *ssa.MakeSlice, *ssa.Const:
+					default:
+						steps[fmt.Sprintf("%T", v)] = true
+					}
+				}
+				_, a := callArgs(d.c)
+				if len(a) > 0 {
+					walk(a[0])
+				}
+				var ks []string
+				for k := range steps {
+					ks = append(ks, k)
+				}
+				sortStrings(ks)
+				parts = append(parts, strings.Join(ks, ","))
+			}
+			sortStrings(parts)
+			return strings.Join(parts, " | "), true
+		}
+		de, okE := derivation(enc)
+		dd, okD := derivation(dec)
+		r.check(okE && okD && de == dd, "cipher-key-derived-alike", "Encrypt/Decrypt aes.NewCipher", w.Pos(enc.Pos()), "both sides build the cipher from {"+de+"}", fmt.Sprintf("Encrypt builds the cipher key from {%s}, Decrypt from {%s}", de, dd))
+	}
+
 	r.rule("no-dropped-error", "on the wallet read path success is reported only behind the success edge of every fallible step (call returning error, comma-ok assertion)", 8)
 	for _, spec := range [][3]string{{"fileoperations", "Helper", "ReadWallet"}, {"fileoperations", "Helper", "ReadFromPem"}, {"aeswrapper", "Helper", "Decrypt"}, {"wallet", "", "DecodeGOBWallet"}} {
 		fn := w.Func(spec[0], spec[1], spec[2])
